@@ -336,17 +336,20 @@ prop('C15',
 
 prop('C35',
      builds=[dict(crate='vm', filters=['c35_'])],
-     default=dict(mem=6, timeout={'quick': 900, 'thorough': 2400}, cbmc_extra=FS, unwindset=['memcmp.0:34']),
-     min_harnesses={'quick': 7, 'thorough': 7},
-     functions_encoded=['Interpreter::upload_bytecode_subsection', 'Interpreter::upload_inner', 'Interpreter::finalize_outputs',
+     default=dict(mem=6, timeout={'quick': 900, 'thorough': 2400}, cbmc_extra=FS, unwindset=['memcmp.0:70']),
+     min_harnesses={'quick': 16, 'thorough': 16},
+     functions_encoded=['Interpreter::upload_bytecode_subsection', 'Interpreter::upload_inner', 'Interpreter::blob_inner', 'Interpreter::upgrade_inner (both purposes)', 'Interpreter::deploy_inner', 'InterpreterStorage::{deploy_contract_with_id, storage_contract_exists, contains_state_transition_bytecode_root} (provided methods)', 'Interpreter::finalize_outputs',
                         '<MemoryStorage as StorageInspect/StorageMutate<UploadedBytecodes>>::{get, insert/replace}'],
      bounds=['upload_bytecode_subsection: subsection index, total and already-uploaded count: all u16 values (index < total, the Checked<Upload> rule); prior bytecode 0..4 and witness 0..3 symbolic bytes (harness constants)',
-             'upload_inner: MemoryStorage whose UploadedBytecodes table holds, under the symbolic transaction root, nothing / an uncompleted upload (2 symbolic bytes, symbolic count) / a completed one, plus an unrelated second root that must stay untouched; no inputs, outputs or fee (gas price 0)'],
-     assumptions=[VM_STUBS_NOTE.split(';')[-1].strip(), 'subsection_index < subsections_number and a present witness (guaranteed by Checked<Upload>)'],
-     out_of_claim=['deploy_inner / blob_inner / upgrade_inner (see the harness list: only what is listed under functions_encoded is decided)',
+             'upload_inner: SlotStorage whose UploadedBytecodes table holds, under the (concrete) transaction root, nothing / an uncompleted upload (2 symbolic bytes, symbolic count) / a completed one, plus an unrelated second root that must stay untouched; no inputs, outputs or fee (gas price 0)',
+             'blob_inner: payload of 0, 2 or 3 symbolic bytes, blob id present or absent, an unrelated blob present', 'upgrade_inner: current version any u32 (incl. u32::MAX), target version taken or free; state transition: bytecode absent / uncompleted / completed',
+             'deploy_inner: contract id (from the stubbed metadata) already deployed or not, code of 0..3 symbolic bytes, zero or one storage slot with a symbolic value, an unrelated contract present'],
+     assumptions=[VM_STUBS_NOTE.split(';')[-1].strip(), 'subsection_index < subsections_number and a present witness (guaranteed by Checked<Upload>)', 'storage back end: SlotStorage (association lists) instead of MemoryStorage (DESIGN 13.3)',
+                  'Bug::new replaced by the location-free constructor (hook); fuel_crypto::Hasher replaced by constant stand-ins (ids are not the subject); UpgradeMetadata::compute and CreateMetadata::compute replaced by models (C06 / C15 subjects)'],
+     out_of_claim=['contract id / root formulas (C15) and the postcard payload of consensus-parameter upgrades (C06)',
                    'sequences of transactions: composition by induction over the stored (bytes, count) pair (argument)', 'Checked<Upload> Merkle-proof validation (C10 covers verify)'],
-     level_text='One-step bounded model checking of the real upload step functions against the sequential-upload specification from an arbitrary stored state: accepted iff next in order, stored value = prior bytes followed by the witness, completed exactly at the last part, completed bytecode never extended, failed steps and unrelated roots leave the table unchanged.',
-     level_note='Trusted: Kani/CBMC/cadical. Partial claim (upload part).')
+     level_text='One-step bounded model checking of the real upload / blob / upgrade / deploy step functions from an arbitrary stored state: a subsection is accepted iff next in order, the stored value is prior bytes followed by the witness, completed exactly at the last part and never extended; a blob id or contract id is created once with exactly its data (code and slots) and a second creation is refused leaving the tables unchanged; upgrades install under current version + 1 (saturating), fail if taken or, for state transitions, if the bytecode is not completely uploaded; unrelated entries never change.',
+     level_note='Trusted: Kani/CBMC/cadical; SlotStorage back end. Step functions only (sequences by induction over the stored state).')
 
 prop('C03',
      builds=[dict(crate='ext', filters=['c03_'])],
